@@ -542,6 +542,11 @@ impl PendingEntryList {
             let start = start.unwrap_or(StreamId::min());
             let end = end.unwrap_or(StreamId::max());
             
+            // A reversed range selects nothing (BTreeMap::range panics on start > end)
+            if start > end {
+                return Vec::new();
+            }
+            
             Box::new(
                 self.entries_by_id
                     .range(start..=end)
